@@ -12,6 +12,17 @@
 (*   Fetch(k)                   calendar(k)                         on a registered key         *)
 (*   Query(k, q)                calendar(k).<op>(...)               builds the table when the   *)
 (*   QueryObj(o, q)             obj.<op>(...) on a loose object     code would                  *)
+(*   AskAll(o) / AskAllKey(k)   every askable question of the menu put to one object, one after  *)
+(*                              the other (so that every question precedes every later one)      *)
+(* and the CALLER'S OWN actions on a handle it holds (a loose object):                           *)
+(*   SetAdj(o, a)               obj.adj = a                         the object now has convention a *)
+(*   Copy(o) / CopyKey(k)       Calendar(obj) / Calendar(calendar(k))  an independent object, same configuration *)
+(*   CopyWith(o, a)             obj(adj = a)                        a copy with convention a     *)
+(* Law: a call has no memory - what an object answers depends on the configuration it has NOW,   *)
+(* not on what it (or the object it was copied from) was asked before.  The questions name the   *)
+(* day through several REALISATIONS (field r: datetime at midnight / with a time of day, pandas  *)
+(* Timestamp, datetime.date) and also leave the range (narrow ranges of the menu): there a       *)
+(* refusal is accepted next to the answer by counting (RefusalBeyondRange).                      *)
 (* The menus change the HOLIDAYS (also to none, also to holidays on old-weekend days), the      *)
 (* WEEKEND (also to none) and the RANGE (first / last day a holiday or a weekend day) of a key; *)
 (* the queries name a per-call convention or use the calendar's own, on both paths of add.      *)
@@ -21,6 +32,7 @@
 (* the specification expects, printed when a history is complete, for replay into the code.     *)
 EXTENDS Calendar, TLC, Json, FiniteSetsExt, Randomization
 CONSTANTS Keys, NHol, NWk, NLo, NHi, ConAdjs, ConFull, Rich, MaxObj, Depth, KeepHist,
+          SetAdjs,       \* the conventions the caller may set on a handle ({} = the caller never does)
           Fan            \* generator: at most Fan randomly drawn parameter choices per step (0 = all)
 
 VARIABLES st, last, hist
@@ -41,12 +53,15 @@ AllParams == {[hol |-> h, wk |-> w, lo |-> l, hi |-> u] : h \in Opt(HolMenu, NHo
 Params == AllParams \ {NoParams}
 \* Calendar(...): any of the parameters, or (ConFull, to keep the model checker's state space small) all four of them
 ConParams == IF ConFull THEN {P \in AllParams : Given(P.hol) /\ Given(P.wk) /\ Given(P.lo) /\ Given(P.hi)} ELSE AllParams
-Q(op, t, n, u, a) == [op |-> op, t |-> t, n |-> n, u |-> u, a |-> a]
+Q(op, t, n, u, a) == [op |-> op, t |-> t, n |-> n, u |-> u, a |-> a, r |-> "dt"]
+QR(op, t, n, u, a, r) == [op |-> op, t |-> t, n |-> n, u |-> u, a |-> a, r |-> r]
 \* both paths of add from a Friday and a Saturday, with the calendar's own and with a passed convention; the table-only
 \* queries; the days whose status the menus change (the Saturday, the last day of the narrow range); a single-day range
 QSmall == {Q("add", E - 2, 1, 0, ""), Q("add", E - 2, 2, 0, ""), Q("add", E - 3, -2, 0, ""), Q("drange", E - 4, 0, E + 2, ""),
            Q("add", E - 2, 1, 0, "p"), Q("add", E - 2, 2, 0, "p"), Q("is_bday", E - 2, 0, 0, ""), Q("is_bday", E + 1, 0, 0, ""),
-           Q("adjust", E + 1, 0, 0, "p"), Q("drange", E - 2, 0, E - 2, ""), Q("drange", E - 3, 0, E + 1, "")}
+           Q("adjust", E + 1, 0, 0, "p"), Q("drange", E - 2, 0, E - 2, ""), Q("drange", E - 3, 0, E + 1, ""),
+           \* the calendar's own convention on the days where f, p and m all differ (Saturday / Sunday before the month end on Monday)
+           Q("adjust", E - 2, 0, 0, "")}
 QRich  == QSmall \cup {Q("add", E - 2, -1, 0, ""), Q("add", E - 3, 1, 0, ""), Q("add", E - 3, 2, 0, ""), Q("add", E - 2, -2, 0, ""),
                        Q("add", E - 2, 0, 0, ""), Q("add", E - 2, 2, 0, "f"), Q("add", E - 2, -2, 0, "f"), Q("add", E - 1, -3, 0, "m"),
                        Q("add", E - 2, -1, 0, "f"), Q("add", E, 2, 0, "p"), Q("add", E + 1, -2, 0, "p"), Q("add", E + 1, -1, 0, "p"),
@@ -60,7 +75,21 @@ QRich  == QSmall \cup {Q("add", E - 2, -1, 0, ""), Q("add", E - 3, 1, 0, ""), Q(
                        Q("add_inv", E - 5, 4, 0, ""), Q("dt_bump", E - 1, -3, 0, ""), Q("dt_bump", E - 2, 2, 0, "p"),
                        Q("dt_bump", E - 2, 1, 0, "p"), Q("bump0", E - 2, 1, 0, "p"), Q("clock_diff", E - 5, 0, E + 2, ""),
                        Q("drange", E - 1, 0, E - 2, ""), Q("drange", E + 1, 0, E - 3, ""), Q("drange", E + 1, 0, E + 1, ""),
-                       Q("drange", E - 2, 0, E + 5, ""), Q("drange", E - 4, 0, E - 4, "")}
+                       Q("drange", E - 2, 0, E + 5, ""), Q("drange", E - 4, 0, E - 4, ""),
+                       Q("add", E - 1, 0, 0, ""),
+                       \* a stamp with a time of day / a date as the day: a business day of every menu (the Wednesday), the Saturday, a day the menus change
+                       QR("is_bday", E - 5, 0, 0, "", "tod"), QR("is_bday", E - 2, 0, 0, "", "tstod"), QR("is_bday", E + 1, 0, 0, "", "date"),
+                       QR("adjust", E - 1, 0, 0, "", "tod"), QR("add", E - 5, 2, 0, "f", "tod"),
+                       QR("is_bday", E - 5, 0, 0, "", "ts"), QR("is_bday", E - 4, 0, 0, "", "tod"), QR("is_bday", E + 2, 0, 0, "", "tstod"),
+                       QR("is_bday", E, 0, 0, "", "tod"), QR("is_bday", E - 3, 0, 0, "", "date"), QR("is_holiday", E - 5, 0, 0, "", "tod"),
+                       QR("adjust", E - 2, 0, 0, "f", "tstod"), QR("adjust", E - 5, 0, 0, "p", "tod"), QR("adjust", E, 0, 0, "", "date"),
+                       QR("add", E - 2, 1, 0, "", "tod"), QR("add", E - 2, -2, 0, "p", "tstod"), QR("add", E - 5, 0, 0, "", "ts"),
+                       QR("dt_bump", E - 1, 2, 0, "", "tod"), QR("bump0", E - 2, -1, 0, "", "tod"), QR("bdays", E - 5, 0, E + 2, "", "tod"),
+                       QR("drange", E - 5, 0, E + 2, "", "tod"), QR("drange", E - 2, 0, E + 1, "", "date"), QR("clock_diff", E - 5, 0, E + 2, "", "tstod"),
+                       \* backwards from / forwards to the ends of the narrow ranges (first day E - 4 or E - 2, last day E + 1 or E + 5)
+                       Q("add", E - 3, -3, 0, ""), Q("add", E - 2, -4, 0, "f"), Q("add", E - 1, -6, 0, "p"), Q("add", E + 1, -8, 0, "f"),
+                       Q("add", E, 3, 0, ""), Q("add", E + 1, 5, 0, "p"), Q("add", E + 2, 2, 0, "f"), Q("dt_bump", E - 3, -2, 0, "f"),
+                       Q("add_inv", E - 3, -3, 0, "f"), Q("bdays_add", E - 3, -3, 0, "f"), Q("add_split", E - 3, -3, 0, "p")}
 QM == IF Rich THEN QRich ELSE QSmall
 
 \* ---- helpers ----------------------------------------------------------------------------------
@@ -70,7 +99,7 @@ Objs == 1..NObj
 \* loop-path questions only: their table is not written down - an economy of the generator, not of the law)
 AskableCfg(c, q) == /\ (q.a = "" /\ q.op \notin {"is_bday", "is_holiday"}) => c.adj # "?"
                     /\ Populates(q) => Bounded(c)
-                    /\ InDomain(c, q) /\ Pinned(c, q)
+                    /\ Posed(c, q) /\ Pinned(c, q)
 Askable(ob, q) == AskableCfg(ob.cfg, q)
 HolSeq(H) == SetToSortSeq(H, <)
 PJson(P) == [hol |-> IF Given(P.hol) THEN <<HolSeq(P.hol[1])>> ELSE <<>>, wk |-> IF Given(P.wk) THEN <<HolSeq(P.wk[1])>> ELSE <<>>,
@@ -78,6 +107,11 @@ PJson(P) == [hol |-> IF Given(P.hol) THEN <<HolSeq(P.hol[1])>> ELSE <<>>, wk |->
 Log(ev) == hist' = IF KeepHist THEN Append(hist, ev) ELSE hist
 Room == (KeepHist => Len(hist) < Depth)
 Want(ob, q) == SetToSeq(AcceptedAnswers(ob.cfg, q))
+Refuse(ob, q) == SetToSeq(RefusalsFor(ob.cfg, q))
+AskedOf(c) == {q \in QM : AskableCfg(c, q)}
+QsJson(c) == SetToSeq({[q |-> q, want |-> Want([cfg |-> c], q), refuse |-> Refuse([cfg |-> c], q)] : q \in AskedOf(c)})
+DoAskAll(s, o, c) == IF \E q \in AskedOf(c) : Populates(q) THEN [s EXCEPT !.heap[o] = Populate(s.heap[o])] ELSE s
+Loose == {o \in Objs : st.heap[o].status = "loose"}
 
 Init == /\ st = [heap |-> <<>>, reg |-> [k \in Keys |-> 0]]
         /\ last = [k \in Keys |-> <<>>]
@@ -112,18 +146,54 @@ Query(k, q) ==
     /\ Room /\ st.reg[k] # 0 /\ AskableCfg(last[k][1], q)          \* (asked and answered from the ghost: the law)
     /\ st' = DoQuery(st, st.reg[k], q)
     /\ UNCHANGED last
-    /\ Log([op |-> "Query", k |-> k, q |-> q, want |-> Want([cfg |-> last[k][1]], q)])
+    /\ Log([op |-> "Query", k |-> k, q |-> q, want |-> Want([cfg |-> last[k][1]], q), refuse |-> Refuse([cfg |-> last[k][1]], q)])
 QueryObj(o, q) ==
     /\ Room /\ st.heap[o].status = "loose" /\ Askable(st.heap[o], q)
     /\ st' = DoQuery(st, o, q)
     /\ UNCHANGED last
-    /\ Log([op |-> "QueryObj", o |-> o, q |-> q, want |-> Want(st.heap[o], q)])
+    /\ Log([op |-> "QueryObj", o |-> o, q |-> q, want |-> Want(st.heap[o], q), refuse |-> Refuse(st.heap[o], q)])
+\* every askable question of the menu, one after the other, on one object
+AskAll(o) ==
+    /\ Room /\ st.heap[o].status = "loose" /\ AskedOf(st.heap[o].cfg) # {}
+    /\ st' = DoAskAll(st, o, st.heap[o].cfg)
+    /\ UNCHANGED last
+    /\ Log([op |-> "AskAll", o |-> o, qs |-> QsJson(st.heap[o].cfg)])
+AskAllKey(k) ==
+    /\ Room /\ st.reg[k] # 0 /\ AskedOf(last[k][1]) # {}
+    /\ st' = DoAskAll(st, st.reg[k], last[k][1])
+    /\ UNCHANGED last
+    /\ Log([op |-> "AskAllKey", k |-> k, qs |-> QsJson(last[k][1])])
+\* ---- the caller's own actions -------------------------------------------------------------------
+SetAdj(o, a) ==
+    /\ Room /\ st.heap[o].status = "loose" /\ st.heap[o].cfg.adj # a
+    /\ st' = DoSetAdj(st, o, a)
+    /\ UNCHANGED last
+    /\ Log([op |-> "SetAdj", o |-> o, adj |-> a, want |-> a])
+Copy(o) ==
+    /\ Room /\ NObj < MaxObj /\ st.heap[o].status = "loose"
+    /\ st' = DoCopy(st, o)
+    /\ UNCHANGED last
+    /\ Log([op |-> "Copy", o |-> o, want |-> HolSeq(st.heap[o].cfg.hol)])
+\* (the configuration of the copy is the one the key was last registered with: the ghost, not the heap)
+CopyKey(k) ==
+    /\ Room /\ NObj < MaxObj /\ st.reg[k] # 0
+    /\ st' = [st EXCEPT !.heap = Append(st.heap, [st.heap[st.reg[k]] EXCEPT !.status = "loose", !.cfg = last[k][1]])]
+    /\ UNCHANGED last
+    /\ Log([op |-> "CopyKey", k |-> k, want |-> HolSeq(last[k][1].hol)])
+CopyWith(o, a) ==
+    /\ Room /\ NObj < MaxObj /\ st.heap[o].status = "loose"
+    /\ st' = DoCopyWith(st, o, a)
+    /\ UNCHANGED last
+    /\ Log([op |-> "CopyWith", o |-> o, adj |-> a, want |-> HolSeq(st.heap[o].cfg.hol)])
 
 \* (the actions over the objects of the heap - a set that depends on the state - get a definition of their own, so
 \*  that TLC's coverage names them one by one)
 AnyRegisterObject     == \E o \in Objs : RegisterObject(o)
 AnyRegisterObjectWith == \E o \in Objs, P \in Params : RegisterObjectWith(o, P)
 AnyQueryObj           == \E o \in Objs, q \in QM : QueryObj(o, q)
+AnySetAdj             == \E o \in Objs, a \in SetAdjs : SetAdj(o, a)
+AnyCopy               == \E o \in Objs : Copy(o)
+AnyCopyWith           == \E o \in Objs, a \in SetAdjs : CopyWith(o, a)
 Next == \/ \E k \in Keys, P \in Params : Register(k, P)
         \/ \E k \in Keys, P \in ConParams, a \in ConAdjs : Construct(k, P, a)
         \/ AnyRegisterObject
@@ -131,6 +201,10 @@ Next == \/ \E k \in Keys, P \in Params : Register(k, P)
         \/ \E k \in Keys : Fetch(k)
         \/ \E k \in Keys, q \in QM : Query(k, q)
         \/ AnyQueryObj
+        \/ AnySetAdj
+        \/ AnyCopy
+        \/ AnyCopyWith
+        \/ \E k \in Keys : CopyKey(k)
 
 \* ---- generator (simulation) --------------------------------------------------------------------
 \* A history of Depth randomly drawn calls (a few randomly drawn argument choices of every kind of call per step -
@@ -148,9 +222,9 @@ Shapes == {ShapeOf(P) : P \in Params}
 PickParams(n) == UNION {Pick(1, {P \in Params : ShapeOf(P) = g}) : g \in Pick(n, Shapes)}
 FinalsOf(s, l) ==
     LET ff == {[op |-> "Fetch", k |-> k, want |-> HolSeq(l[k][1].hol)] : k \in {k \in Keys : s.reg[k] # 0}}
-        fq == {[op |-> "Query", k |-> x[1], q |-> x[2], want |-> Want([cfg |-> l[x[1]][1]], x[2])] :
+        fq == {[op |-> "Query", k |-> x[1], q |-> x[2], want |-> Want([cfg |-> l[x[1]][1]], x[2]), refuse |-> Refuse([cfg |-> l[x[1]][1]], x[2])] :
                   x \in {y \in Keys \X QM : s.reg[y[1]] # 0 /\ AskableCfg(l[y[1]][1], y[2])}}
-        fo == {[op |-> "QueryObj", o |-> x[1], q |-> x[2], want |-> Want(s.heap[x[1]], x[2])] :
+        fo == {[op |-> "QueryObj", o |-> x[1], q |-> x[2], want |-> Want(s.heap[x[1]], x[2]), refuse |-> Refuse(s.heap[x[1]], x[2])] :
                   x \in {y \in (1..Len(s.heap)) \X QM : s.heap[y[1]].status = "loose" /\ Askable(s.heap[y[1]], y[2])}}
     IN  [fetch |-> SetToSeq(ff), query |-> SetToSeq(fq), queryobj |-> SetToSeq(fo)]
 Complete == KeepHist /\ Len(hist) = Depth
@@ -162,6 +236,33 @@ NextGen == \/ \E k \in Pick(1, Keys), P \in PickParams(Fan) : Register(k, P)
            \/ \E k \in Pick(1, Keys) : Fetch(k)
            \/ \E x \in Pick(8 * Fan, Keys \X QM) : Query(x[1], x[2])
            \/ \E x \in Pick(4 * Fan, Objs \X QM) : QueryObj(x[1], x[2])
+           \/ \E o \in Pick(1, Loose) : AskAll(o)
+           \/ \E k \in Pick(1, Keys) : AskAllKey(k)
+           \/ \E x \in Pick(2, Loose \X SetAdjs) : SetAdj(x[1], x[2])
+           \/ \E o \in Pick(1, Loose) : Copy(o)
+           \/ \E k \in Pick(1, Keys) : CopyKey(k)
+           \/ \E x \in Pick(1, Loose \X SetAdjs) : CopyWith(x[1], x[2])
+           \/ Finish
+
+\* ---- generator (sessions, breadth first) ----------------------------------------------------------
+\* Every session of the shape  Calendar(k, ...) ; ask everything ; the caller's edit ; a second edit that touches what the
+\* first left behind ; (finals: everything asked again of every object and key)  over the menus of the configuration:
+\* each question of the menu is put before and after each edit, to the edited object and to its copies.
+Newest == NObj
+SesEdit1 == \/ \E a \in SetAdjs : SetAdj(1, a)
+            \/ Copy(1)
+            \/ \E a \in SetAdjs : CopyWith(1, a)
+            \/ RegisterObject(1)
+SesEdit2 == LET e == hist[3].op IN
+            \/ e = "Copy" /\ \E o \in {1, 2}, a \in SetAdjs : SetAdj(o, a)
+            \/ e = "SetAdj" /\ (Copy(1) \/ RegisterObject(1) \/ AskAll(1))
+            \/ e = "CopyWith" /\ hist[3].adj # st.heap[1].cfg.adj /\ (\E a \in SetAdjs : SetAdj(1, a))
+            \/ e = "RegisterObject" /\ \E k \in Keys : CopyKey(k)
+SesParams == {P \in AllParams : Given(P.lo) /\ Given(P.hi)}
+NextSes == \/ Len(hist) = 0 /\ \E k \in Keys, P \in SesParams, a \in ConAdjs : Construct(k, P, a)
+           \/ Len(hist) = 1 /\ AskAll(1)
+           \/ Len(hist) = 2 /\ SesEdit1
+           \/ Len(hist) = 3 /\ SesEdit2
            \/ Finish
 
 \* ---- invariants -------------------------------------------------------------------------------
@@ -182,7 +283,8 @@ TableFresh == \A o \in Objs : LET ob == st.heap[o] IN
 \* with the table each object holds (or would build now), every askable query - loop path,
 \* table path, own or passed convention, interleaved in any order on the same object - is answered as the law level says
 PathsAgree == \A o \in Objs : LET ob == st.heap[o] IN ob.status # "dead" =>
-                 \A q \in QM : Askable(ob, q) => MechAnswer(ob.cfg, IF Populates(q) THEN TabFor(ob) ELSE <<>>, q) \in AcceptedAnswers(ob.cfg, q)
+                 \A q \in QM : Askable(ob, q) => LET m == MechAnswer(ob.cfg, IF Populates(q) THEN TabFor(ob) ELSE <<>>, q) IN
+                                                    m \in AcceptedAnswers(ob.cfg, q) \/ (~InDomain(ob.cfg, q) /\ MRefused(m))
 \* a step changes the entry of at most one key
 OneKeyPerStep == [][Cardinality({k \in Keys : st'.reg[k] # st.reg[k]}) <= 1]_vars
 =============================================================================
